@@ -66,6 +66,10 @@ structure Env where
   kindOfType : Str → Option Kind
   validIRI : Str → Bool
   eqv : Item → Item → Bool
+  /-- presentation of a single language-tagged text: `false` = the library's writer (collapsed to a plain
+  string under the term, the tag is lost), `true` = a one-entry language map under `<term>Map` (an
+  independent writer's choice; the tag survives) -/
+  loneTagAsMap : Bool := false
 
 def recName (kind : String) : String :=
   if kind == "source" then "Source" else if kind == "pubkey" then "PublicKey" else if kind == "endpoints" then "Endpoints" else "?"
@@ -90,10 +94,13 @@ def mapOf : List (Str × Str) → JMembers
   | [] => .nil
   | (t, v) :: r => .cons t (.str v) (mapOf r)
 
-def writeNLV (n : List (Str × Str)) : Option (String × J) :=
+def writeNLV (asMap : Bool) (n : List (Str × Str)) : Option (String × J) :=
   match n with
   | [] => none
-  | [(_, v)] => if v.isEmpty then none else some ("", .str v)
+  | [(t, v)] =>
+    if v.isEmpty then none
+    else if asMap && t != dash then some ("Map", .obj (mapOf [(t, v)]))
+    else some ("", .str v)
   | _ =>
     match nlvMapMembers n [] with
     | [] => none
@@ -136,7 +143,7 @@ def writeVal (E : Env) (kind helper : String) : FVal → Option (String × J)
       (if Items.length l = 0 then none else some ("", .arr (JList.ofList (writeItems E l))))
     else if helper == "JSONWriteItemProp" then (compactOf (Items.length l) (writeItems E l)).map (fun j => ("", j))
     else none
-  | .nlv n => if helper == "JSONWriteNaturalLanguageProp" then writeNLV n else none
+  | .nlv n => if helper == "JSONWriteNaturalLanguageProp" then writeNLV E.loneTagAsMap n else none
   | .time s _ _ => if helper == "JSONWriteTimeProp" then some ("", .leaf (.time s 0 0)) else none
   | .dur d => if helper == "JSONWriteDurationProp" then some ("", .leaf (.dur d)) else none
   | .dec6 z => if helper == "JSONWriteFloatProp" then some ("", .leaf (.dec6 z)) else none
